@@ -40,7 +40,9 @@ CONSTANTS JobSeq,     \* all job tokens of the universe, in canonical listing or
           SepKeys,    \* key atoms containing os.sep
           KeyOrder,   \* all key paths, sorted as Python sorts the dotted key strings
           IdAtom,     \* [job -> text atom of its id]
-          PathSpecs,  \* subset of {"auto", "id", "tree", "flat", "const"}
+          PathSpecs,  \* subset of {"auto", "id", "tree", "flat", "const", "cliauto"}
+          CliMode,    \* TRUE: the actions are COMMAND LINES (`signac view ...`, one fresh process each), see ViewArgs
+          CliFilters, \* the `-f key value` selections the command-line model uses: set of [k : key atom, v : value atom | "NOMATCH"]
           Orders,     \* subset of {"asc", "desc"}: directory listing order / order of job_ids
           SpecKey,    \* key atom K of the custom specs  "K/{K}/{{auto}}" (tree)  and  "K_{K}/{{auto:_}}" (flat)
           MaxInside,  \* CONSTRAINT of the graph runs while D5 is open: states with more entries inside job directories are not expanded
@@ -94,6 +96,7 @@ AutoPath(J, excl, j, sep) ==
 PathFn(J, ps, j) ==
   LET K == <<SpecKey>> IN
   CASE ps = "auto"  -> AutoPath(J, {}, j, "")
+    [] ps = "cliauto" -> AutoPath(J, {}, j, "")          \* the command line's default path argument is the STRING "{{auto}}"
     [] ps = "id"    -> [ok |-> TRUE, p |-> <<<<IdAtom[j]>>>>]
     [] ps = "const" -> [ok |-> TRUE, p |-> <<<<"ALL">>>>]
     [] ps = "tree"  -> IF ~HasLeaf(j, K) THEN Fail
@@ -102,7 +105,7 @@ PathFn(J, ps, j) ==
     [] ps = "flat"  -> IF ~HasLeaf(j, K) THEN Fail
                        ELSE LET a == AutoPath(J, {K}, j, "US") IN
                             IF ~a.ok THEN Fail ELSE [ok |-> TRUE, p |-> <<<<SpecKey, "US", Render[ValAt(j, K)]>>>> \o a.p]
-Custom(ps)  == ps \in {"tree", "flat", "const"}             \* str specs: evaluated and checked for uniqueness up front
+Custom(ps)  == ps \in {"tree", "flat", "const", "cliauto"}             \* str specs: evaluated and checked for uniqueness up front
 SepFails(J) == \E j \in J : \E e \in SP[j] : e.k[1] \in SepKeys \/ (Len(e.k) = 1 /\ e.v \in SepVals)
 
 ---------------------------------------------------------------------------
@@ -229,15 +232,28 @@ Outcomes(w, v, ins, a) ==
 (* actions.  `last` is the observation variable of DESIGN 2.3: every step records what was called and what the model
    says happened (result class, deviations taken); an Idle step forgets it again, so the state graph has one node per
    (ws, view) plus one node per labelled transition - no blow-up, and every edge of the dump knows its arguments. *)
-NoArgs == [kind |-> "none", S |-> {}, ps |-> "", ord |-> ""]
+NoArgs == [kind |-> "none", S |-> {}, ps |-> "", ord |-> "", fk |-> "", fv |-> ""]
 Idle   == [op |-> "idle", j1 |-> "", j2 |-> "", a |-> NoArgs, res |-> "ok", dev |-> {}]
 Pow2(n) == IF n = 0 THEN 1 ELSE IF n = 1 THEN 2 ELSE IF n = 2 THEN 4 ELSE IF n = 3 THEN 8 ELSE IF n = 4 THEN 16 ELSE IF n = 5 THEN 32 ELSE 1000000
 Subsets(w) == IF Pow2(Cardinality(w)) <= MaxSubsets THEN SUBSET w ELSE RandomSubset(MaxSubsets - 1, SUBSET w) \cup {{}}
 \* job_ids is an ITERABLE of ids: a = [kind |-> "ids", S, ord] stands for every Python spelling of the same ids in the same order
 \* (list, tuple, set, generator expression, iterator, map object, dict keys view, ids drawn lazily from a cursor); the harness
 \* rotates the spellings over the edges, the expected outcome below does not depend on it
-ViewArgs(w) == {[kind |-> "all", S |-> {}, ps |-> p, ord |-> o] : p \in PathSpecs, o \in Orders}
-               \cup {[kind |-> "ids", S |-> S, ps |-> p, ord |-> o] : S \in Subsets(w), p \in PathSpecs, o \in Orders}
+LibArgs(w)  == {[kind |-> "all", S |-> {}, ps |-> p, ord |-> o, fk |-> "", fv |-> ""] : p \in PathSpecs, o \in Orders}
+               \cup {[kind |-> "ids", S |-> S, ps |-> p, ord |-> o, fk |-> "", fv |-> ""] : S \in Subsets(w), p \in PathSpecs, o \in Orders}
+(* COMMAND LINE FRONT.  `signac view [-p PREFIX] [PATH] [-j ID ... | -f KEY VALUE]` is create_linked_view(prefix, path, job_ids = the
+   ids the selection names) in a fresh process: the action is the SAME Outcomes operator applied to the selection the command
+   denotes (S below is decided here, the harness only spells it as argv); without -j/-f every job of the workspace is named
+   explicitly; PATH omitted means the string "{{auto}}" (spec "cliauto": the schema-based path, checked for uniqueness like every
+   string spec).  What the user of the command is promised = the requirements of this module with res read as the EXIT STATUS:
+   status 0 and the from-scratch tree of the selection, or status 1, a message on stderr, and the view (and every job
+   directory) unchanged. *)
+FilterSel(w, f) == IF f.v = "NOMATCH" THEN {} ELSE {j \in w : HasLeaf(j, <<f.k>>) /\ ValAt(j, <<f.k>>) = f.v}
+CliArgs(w)  == {[kind |-> "cli_all", S |-> w, ps |-> p, ord |-> o, fk |-> "", fv |-> ""] : p \in PathSpecs, o \in Orders}
+               \cup {[kind |-> "cli_ids", S |-> S, ps |-> p, ord |-> o, fk |-> "", fv |-> ""] : S \in Subsets(w) \ {{}}, p \in PathSpecs, o \in Orders}
+               \cup {[kind |-> "cli_filter", S |-> FilterSel(w, f), ps |-> p, ord |-> o, fk |-> f.k, fv |-> f.v] : f \in CliFilters, p \in PathSpecs, o \in Orders}
+CliExit(o)  == IF o.res = "ok" THEN 0 ELSE 1
+ViewArgs(w) == IF CliMode THEN CliArgs(w) ELSE LibArgs(w)
 
 Add(j)       == /\ ws' = ws \cup {j} /\ UNCHANGED <<view, inside>>
                 /\ last' = [Idle EXCEPT !.op = "add", !.j1 = j]
